@@ -132,6 +132,12 @@ def run(tier, seed):
     for idx, name, ast, src, args in enumprog.programs(4, stride=4001 if quick else 53, offset=seed, minsize=4):
         items.append((name, src, args, False))
         n_enum += 1
+    for idx, name, ast, src, args in enumprog.programs2(3, stride=stride, offset=seed):
+        items.append((name, src, args, False))
+        n_enum += 1
+    for idx, name, ast, src, args in enumprog.programs2(4, stride=4001 if quick else 53, offset=seed, minsize=4):
+        items.append((name, src, args, False))
+        n_enum += 1
     for n, s, a in runner.corpus_programs(('example', 'ok', 'fail')):
         items.append((n, s, list(a) or ['-O3'], n.endswith('.fail.nmfu')))
     jobs = [{'id': i, 'src': s, 'args': a, 'name': 'p', 'want': ['codegen']} for i, (n, s, a, must) in enumerate(items)]
